@@ -155,15 +155,67 @@ pub fn run(_tier: &str) -> Report {
             }
         }
     }
+    // Metadata::authorization_header: the full finite domain AuthScheme x SendAccessToken kind (one fixed token)
+    let mut f_auth = vec![];
+    let mut na = 0u64;
+    {
+        use ruma_common::api::{AuthScheme, MatrixVersion, Metadata, SendAccessToken, VersionHistory};
+        const HISTORY: VersionHistory = VersionHistory::new(&[], &[(MatrixVersion::V1_0, "/p")], None, None);
+        let schemes = [
+            ("None", AuthScheme::None),
+            ("AccessToken", AuthScheme::AccessToken),
+            ("AccessTokenOptional", AuthScheme::AccessTokenOptional),
+            ("AppserviceToken", AuthScheme::AppserviceToken),
+            ("AppserviceTokenOptional", AuthScheme::AppserviceTokenOptional),
+            ("ServerSignatures", AuthScheme::ServerSignatures),
+        ];
+        for (sname, scheme) in schemes {
+            for (tname, tok) in [
+                ("IfRequired", SendAccessToken::IfRequired("tok")),
+                ("Always", SendAccessToken::Always("tok")),
+                ("Appservice", SendAccessToken::Appservice("tok")),
+                ("None", SendAccessToken::None),
+            ] {
+                na += 1;
+                let md = Metadata { method: http::Method::GET, rate_limited: false, authentication: scheme, history: HISTORY };
+                // what the scheme prescribes: Some(true) = Bearer header, Some(false) = no header, None = error (token missing)
+                let has_user_token = tname != "None";
+                let has_as_token = tname == "Appservice" || tname == "Always";
+                let want: Option<bool> = match sname {
+                    "None" => Some(tname == "Always"),
+                    "AccessToken" => if has_user_token { Some(true) } else { None },
+                    "AccessTokenOptional" => Some(has_user_token),
+                    "AppserviceToken" => if has_as_token { Some(true) } else { None },
+                    "AppserviceTokenOptional" => Some(has_as_token),
+                    _ => Some(false),
+                };
+                let got = match md.authorization_header(tok) {
+                    Ok(Some((name, value))) => {
+                        if name == http::header::AUTHORIZATION && value == "Bearer tok" { Some(true) } else {
+                            fail(&mut f_auth, json!({"scheme": sname, "token": tname, "observed": format!("{name:?}: {value:?}")}));
+                            continue;
+                        }
+                    }
+                    Ok(None) => Some(false),
+                    Err(_) => None,
+                };
+                if got != want {
+                    fail(&mut f_auth, json!({"scheme": sname, "token": tname, "observed": format!("{got:?}"), "expected": format!("{want:?}"),
+                        "legend": "Some(true) = `Authorization: Bearer tok`, Some(false) = no header, None = NeedsAuthentication error"}));
+                }
+            }
+        }
+    }
     Report {
         bound: format!(
-            "{n} XMatrix values (9 server names x destination absent/9 x 6 key ids x 5 signatures); {nq} strings of length 0..4 over {{a,\",\\,space,:,comma,=}} for the quoting helpers; {np} mutated header texts (<= 4 of 12 fragments, 4 prefixes)"
+            "{n} XMatrix values (9 server names x destination absent/9 x 6 key ids x 5 signatures); {nq} strings of length 0..4 over {{a,\",\\,space,:,comma,=}} for the quoting helpers; {np} mutated header texts (<= 4 of 12 fragments, 4 prefixes); authorization_header: all 6 AuthScheme x 4 SendAccessToken kinds"
         ),
         cases: n + nq + np,
         obligations: vec![
             ("xmatrix_header_survives_format_then_parse", n, f_rt),
             ("xmatrix_reencoding_is_identical", n, f_reenc),
             ("quoted_string_helpers_round_trip", nq, f_quote),
+            ("authorization_header_follows_the_endpoint_auth_scheme", na, f_auth),
             ("xmatrix_parsing_and_quoting_never_panic", n + nq + np, f_panic),
         ],
     }
